@@ -417,8 +417,8 @@ def positive_number_mechanism(chk, drv, schemas, mech, vz, vx):
                                     "judge": [enc(o["value"]) for o in out] if out is not None else []})
                         for s, out, rec, err in runs])
     verdicts = iter([m.get("valid", []) for (s, out, rec, err), m in zip(runs, models) if out is not None])
-    for (s, out, rec, err), m in zip(runs, models):  # independent oracle on the same values
-        if out is not None:
+    for i, ((s, out, rec, err), m) in enumerate(zip(runs, models)):  # independent oracle on (a third of) the same values
+        if out is not None and (chk.thorough or i % 3 == 0):
             ref = js_judge(s, [o["value"] for o in out])
             if ref is not None and ref != m.get("valid"):
                 raise InfraError(f"Lean validF != jsonschema on {s}: {[o['value'] for o in out]} lean={m.get('valid')} jsonschema={ref}")
@@ -738,10 +738,10 @@ def erase_top(sdict, kw):
     return {k: v for k, v in sdict.items() if k != kw}
 
 
-def cover_mechanism(chk, drv, cases, mech, vz, vx):
-    """cases: [(schema, modes_key, location)]"""
+def cover_mechanism(chk, drv, cases, vz, vx):
+    """cases: [(mechanism, schema, modes_key, location)] — one driver batch per phase for all mechanisms together"""
     runs = []
-    for schema, mk, loc in cases:
+    for mech, schema, mk, loc in cases:
         before = LOSSY[0]
         out, rec, err = run_cover(schema, mk, loc)
         try:
@@ -750,13 +750,13 @@ def cover_mechanism(chk, drv, cases, mech, vz, vx):
             modelled = err is None and not invalid_regex_inside(schema)
         except Unmodelled:
             orc, modelled = [], False
-        runs.append((schema, mk, loc, out, rec, err, orc, modelled, LOSSY[0] != before))
+        runs.append((schema, mk, loc, out, rec, err, orc, modelled, LOSSY[0] != before, mech))
     reqs = [cover_request(r[0], r[6], r[1], r[2], vz, vx) for r in runs if r[7]]
     models = iter(drv.batch(reqs))
     judge_items = [(r[0], [o["value"] for o in r[3]]) for r in runs if _encodable(r[3])]
     verdicts = iter(judge_batch(chk, drv, judge_items))
     pending = []  # violations that need the single-site variants for their signature
-    for schema, mk, loc, out, rec, err, orc, modelled, lossy in runs:
+    for schema, mk, loc, out, rec, err, orc, modelled, lossy, mech in runs:
         key = [schema, mk, loc]
         nontrivial = len(out) > 0
         chk.case(mech, key=key, nontrivial=nontrivial, sample={"schema": schema, "modes": mk, "location": loc, "impl": brief(out)[:8]})
@@ -794,7 +794,7 @@ def cover_mechanism(chk, drv, cases, mech, vz, vx):
             if ok:
                 continue
             pending.append((schema, mk, loc, o, orc if modelled else None, rec))
-    resolve_cover_violations(chk, drv, pending, mech)
+    resolve_cover_violations(chk, drv, pending)
 
 
 def _encodable(out):
@@ -806,7 +806,7 @@ def _encodable(out):
         return False
 
 
-def resolve_cover_violations(chk, drv, pending, mech):
+def resolve_cover_violations(chk, drv, pending):
     """give every label violation its signature; the numeric positives are attributed to F6/F7 with the single-site
     variants of the model"""
     reqs = []
@@ -978,12 +978,12 @@ def detect_body_variant(chk):
     return v
 
 
-def cases_mechanism(chk, drv, ops, mech, vb):
-    """ops: [(params, body, methods, modes_key)]"""
-    runs = [(o, run_cases(*o)) for o in ops]
-    outs = drv.batch([cases_request(run, o[3], vb) for o, run in runs])
+def cases_mechanism(chk, drv, ops, vb):
+    """ops: [(mechanism, params, body, methods, modes_key)]"""
+    runs = [(o, run_cases(*o[1:])) for o in ops]
+    outs = drv.batch([cases_request(run, o[4], vb) for o, run in runs])
     for (o, run), m in zip(runs, outs):
-        ps, body, methods, mk = o
+        mech, ps, body, methods, mk = o
         key = [[list(p[:3]) + [p[3]] for p in ps], body, methods, mk]
         real = run["cases"]
         chk.case(mech, key=key, nontrivial=len(real) > 0 or run["err"] is not None,
@@ -1075,45 +1075,36 @@ def run(chk):
     positive_number_mechanism(chk, drv, grid, "positive_number:grid", vz, vx)
     tm.lap("positive_number:grid")
     chk.notes.append(f"positive_number:grid is exhaustive over {len(grid)} schemas")
-    # cover_schema_iter on a slice of the numeric grid x modes
-    cases = [(s_, mk, "body") for s_ in grid[:: 97] for mk in ("P", "N", "PN")]
-    cover_mechanism(chk, drv, cases, "cover:numeric", vz, vx)
-    tm.lap("cover:numeric")
+    # cover_schema_iter: exhaustive small-scope grids per keyword family (sliced in the quick tier) + random schemas
     rng = chk.rng
     locs = ["body", "query", "header"]
+    cases = [("cover:numeric", s_, mk, "body") for s_ in grid[:: 97] for mk in ("P", "N", "PN")]
 
-    def with_modes(schemas, every):
+    def with_modes(mech, schemas, every):
         out = []
         for i, s_ in enumerate(schemas):
             if chk.thorough or i % every == 0:
                 for mk in ("P", "N", "PN"):
-                    out.append((s_, mk, locs[(i // every) % 3]))
+                    out.append((mech, s_, mk, locs[(i // every) % 3]))
         return out
-    cover_mechanism(chk, drv, with_modes(list(GEN.string_grid()), 7), "cover:strings", vz, vx)
-    tm.lap("cover:strings")
-    cover_mechanism(chk, drv, with_modes(list(GEN.array_grid()), 4), "cover:arrays", vz, vx)
-    tm.lap("cover:arrays")
-    cover_mechanism(chk, drv, with_modes(list(GEN.object_grid()), 7), "cover:objects", vz, vx)
-    tm.lap("cover:objects")
-    cover_mechanism(chk, drv, with_modes(list(GEN.combinator_grid()), 2), "cover:combinators", vz, vx)
-    tm.lap("cover:combinators")
-    rnd = [(s_, rng.choice(["P", "N", "PN", "PN"]), rng.choice(locs))
-           for s_ in GEN.random_sane(rng, chk.budget(400, 6000), depth=2 if not chk.thorough else 3)]
-    cover_mechanism(chk, drv, rnd, "cover:random", vz, vx)
-    tm.lap("cover:random")
-    odd = [(s_, rng.choice(["P", "N", "PN", "PN"]), rng.choice(locs))
-           for s_ in GEN.random_schemas(rng, chk.budget(60, 2000), depth=2)]
-    cover_mechanism(chk, drv, odd, "cover:random-odd", vz, vx)
-    tm.lap("cover:random-odd")
+    cases += with_modes("cover:strings", list(GEN.string_grid()), 6)
+    cases += with_modes("cover:arrays", list(GEN.array_grid()), 11)
+    cases += with_modes("cover:objects", list(GEN.object_grid()), 9)
+    cases += with_modes("cover:combinators", list(GEN.combinator_grid()), 5)
+    cases += [("cover:random", s_, rng.choice(["P", "N", "PN", "PN"]), rng.choice(locs))
+              for s_ in GEN.random_sane(rng, chk.budget(350, 6000), depth=2 if not chk.thorough else 3)]
+    cases += [("cover:random-odd", s_, rng.choice(["P", "N", "PN", "PN"]), rng.choice(locs))
+              for s_ in GEN.random_schemas(rng, chk.budget(60, 2000), depth=2)]
+    cover_mechanism(chk, drv, cases, vz, vx)
+    tm.lap("cover")
     # builder._iter_coverage_cases
     vb = detect_body_variant(chk)
     ops = [(ps, body, ms, mk) for i, (ps, body, ms) in enumerate(GEN.operation_grid(chk.thorough))
            for mk in (("P", "N", "PN") if chk.thorough else (("PN", "N", "P")[i % 3], "PN")[: 1 + (i % 2)])]
-    cases_mechanism(chk, drv, ops, "cases:grid", vb)
-    tm.lap("cases:grid")
-    rops = [(*GEN.random_operation(rng), rng.choice(["P", "N", "PN", "PN"])) for _ in range(chk.budget(150, 2000))]
-    cases_mechanism(chk, drv, rops, "cases:random", vb)
-    tm.lap("cases:random")
+    ops = [("cases:grid", *o) for o in ops]
+    ops += [("cases:random", *GEN.random_operation(rng), rng.choice(["P", "N", "PN", "PN"])) for _ in range(chk.budget(120, 2000))]
+    cases_mechanism(chk, drv, ops, vb)
+    tm.lap("cases")
     chk.exhaustive = False
 
 
